@@ -1269,6 +1269,19 @@ pub fn run_c16_processes(tier: &str, batch_seed: u64) -> LayerBResult {
                         break;
                     }
                 }
+                // run mode against a peer that fails without reading its input: the report must not depend on who wins the race
+                if diverged.is_none() && first.starts_with("exit=Some(0)") {
+                    let cell = Cell { mode: "run".into(), require: None, no_std: false, target: String::new(), peer: "P5-fails-without-reading".into(), input: "present".into(), spelling: "absolute".into(), fault: None };
+                    let see = |o: &ProcObs| format!("exit={:?}\n{}", o.exit, normalise(&root, &strip_ansi(&String::from_utf8_lossy(&o.stdout))));
+                    let a = see(&runner.run_cell(&prog, &cell, &root, &[]));
+                    for _ in 0..3 {
+                        let b = see(&runner.run_cell(&prog, &cell, &root, &[]));
+                        if a != b {
+                            diverged = Some(format!("run mode, lua fails without reading its input: {}", crate::props::first_diff(&a, &b)));
+                            break;
+                        }
+                    }
+                }
                 let mut r = result.lock().unwrap();
                 r.0 += 1;
                 r.1 += reps as u64;
@@ -1403,7 +1416,7 @@ pub fn run_c07_processes(tier: &str, batch_seed: u64) -> LayerBResult {
                 }
                 let spelling = if fault.is_some() { "absolute" } else { spelling };
                 // every eighth program is *run*: the driver's dialogue with its peer must terminate too
-                let (mode, target, peer) = if i % 8 == 5 {
+                let (mode, target, peer) = if i % 8 == 6 {
                     ("run", "", ["P2b-long-stderr-exit1", "P5-fails-without-reading", "P1s-slow-reader", "P1-ok"][((i / 8) % 4) as usize])
                 } else {
                     ("file", "O1-absent", "")
